@@ -74,22 +74,14 @@ func v2rcs(b []byte) (v uint64, n int, ok bool) {
 	if len(b) == 0 {
 		return 0, 0, false
 	}
-	w, min := 0, uint64(0)
-	switch b[0] {
-	case 0xfd:
-		w, min = 2, 0xfd
-	case 0xfe:
-		w, min = 4, 0x10000
-	case 0xff:
-		w, min = 8, 0x100000000
-	default:
+	w, min := map[byte]int{0xfd: 2, 0xfe: 4, 0xff: 8}[b[0]], map[byte]uint64{0xfd: 0xfd, 0xfe: 0x10000, 0xff: 0x100000000}[b[0]]
+	if w == 0 {
 		return uint64(b[0]), 1, true
 	}
 	if len(b) < 1+w {
 		return 0, 0, false
 	}
-	v = v2num(b[1 : 1+w])
-	return v, 1 + w, v >= min
+	return v2num(b[1 : 1+w]), 1 + w, v2num(b[1:1+w]) >= min
 }
 func v2vs(b []byte) []byte { return append(v2cs(uint64(len(b))), b...) }
 func v2rvs(b []byte) (x []byte, n int, ok bool) {
@@ -113,10 +105,13 @@ func v2deriv(fp uint32, path []uint32) []byte {
 	}
 	return o
 }
-func v2rdDeriv(b []byte) (fp uint32, path []uint32) {
-	if len(b) < 4 || len(b)%4 != 0 {
-		panic("derivation value length")
+func v2must(ok bool, what string) {
+	if !ok {
+		panic("case line: " + what)
 	}
+}
+func v2rdDeriv(b []byte) (fp uint32, path []uint32) {
+	v2must(len(b) >= 4 && len(b)%4 == 0, "derivation value length")
 	for i := 4; i < len(b); i += 4 {
 		path = append(path, uint32(v2num(b[i:i+4])))
 	}
@@ -128,57 +123,31 @@ func v2encTxOut(o *transaction.TxOutput) []byte {
 	return v2cat(o.Asset, o.Value, o.Nonce, v2vs(o.Script))
 }
 func v2decTxOut(b []byte) (*transaction.TxOutput, bool) {
-	pos := 0
-	peek := func() int {
-		if pos < 0 || pos >= len(b) {
-			pos = -1
-			return -1
+	ok := true
+	take := func(sizes map[byte]int, dflt int) []byte { // field length from its first byte
+		n := dflt
+		if len(b) > 0 && sizes[b[0]] > 0 {
+			n = sizes[b[0]]
 		}
-		return int(b[pos])
-	}
-	take := func(n int) []byte {
-		if pos < 0 || pos+n > len(b) {
-			pos = -1
+		if ok = ok && n > 0 && n <= len(b); !ok {
 			return nil
 		}
-		pos += n
-		return v2cp(b[pos-n : pos])
+		x := v2cp(b[:n])
+		b = b[n:]
+		return x
 	}
 	o := &transaction.TxOutput{}
-	switch peek() {
-	case 1, 10, 11:
-		o.Asset = take(33)
-	default:
-		return nil, false
-	}
-	switch peek() {
-	case 0:
-		o.Value = take(1)
-	case 1:
-		o.Value = take(9)
-	case 8, 9:
-		o.Value = take(33)
-	default:
-		return nil, false
-	}
-	if c := peek(); c >= 1 && c <= 3 {
-		o.Nonce = take(33)
-	} else {
-		o.Nonce = take(1)
-	}
-	if pos < 0 {
-		return nil, false
-	}
-	s, n, ok := v2rvs(b[pos:])
+	o.Asset = take(map[byte]int{1: 33, 10: 33, 11: 33}, 0)
+	o.Value = take(map[byte]int{0: 1, 1: 9, 8: 33, 9: 33}, 0)
+	o.Nonce = take(map[byte]int{1: 33, 2: 33, 3: 33}, 1)
+	s, n, ok2 := v2rvs(b)
 	o.Script = v2cp(s)
-	return o, ok && pos+n == len(b)
+	return o, ok && ok2 && n == len(b)
 }
 
 func v2encMsgTx(tx *wire.MsgTx) []byte {
 	var buf bytes.Buffer
-	if err := tx.BtcEncode(&buf, wire.ProtocolVersion, wire.LatestEncoding); err != nil {
-		panic(err)
-	}
+	v2must(tx.BtcEncode(&buf, wire.ProtocolVersion, wire.LatestEncoding) == nil, "BtcEncode")
 	return buf.Bytes()
 }
 func v2decMsgTx(b []byte) (tx *wire.MsgTx, ok bool) {
@@ -395,17 +364,12 @@ func v2toInput(s *v2sec) psetv2.Input {
 	}
 	if len(v[0]) > 0 {
 		tx, err := transaction.NewTxFromBuffer(bytes.NewBuffer(v2cp(v[0])))
-		if err != nil {
-			panic("non-witness utxo: " + err.Error())
-		}
+		v2must(err == nil, "non-witness utxo")
 		in.NonWitnessUtxo = tx
 	}
 	if len(v[1]) > 0 {
-		o, ok := v2decTxOut(v[1])
-		if !ok {
-			panic("witness utxo")
-		}
-		o.RangeProof, o.SurjectionProof = nil, nil
+		o, ok := v2decTxOut(v[1]) // RangeProof and SurjectionProof stay nil
+		v2must(ok, "witness utxo")
 		in.WitnessUtxo = o
 	}
 	for _, e := range s.lists[2] {
@@ -419,23 +383,15 @@ func v2toInput(s *v2sec) psetv2.Input {
 	_, in.Hash256Preimages = v2maps(s.lists[12])
 	if len(v[22]) > 0 {
 		tx, ok := v2decMsgTx(v[22])
-		if !ok {
-			panic("pegin tx")
-		}
+		v2must(ok, "pegin tx")
 		in.PeginTx = tx
 	}
 	if len(v[27]) > 0 {
 		n, k, ok := v2rcs(v[27])
-		for rest := v[27][k:]; ok && n > 0; n-- {
-			var x []byte
-			var m int
-			if x, m, ok = v2rvs(rest); ok {
-				in.PeginWitness = append(in.PeginWitness, v2cp(x))
-				rest = rest[m:]
-			}
-		}
-		if !ok {
-			panic("pegin witness")
+		for rest := v[27][k:]; n > 0; n-- {
+			x, m, ok2 := v2rvs(rest)
+			v2must(ok && ok2, "pegin witness")
+			in.PeginWitness, rest = append(in.PeginWitness, v2cp(x)), rest[m:]
 		}
 	}
 	if len(v[39]) > 0 {
@@ -452,31 +408,20 @@ func v2toInput(s *v2sec) psetv2.Input {
 	}
 	for _, e := range s.lists[42] {
 		cb, err := taproot.ParseControlBlock(e.k)
-		if err != nil || len(e.v) == 0 {
-			panic("tap leaf script")
-		}
-		ver := cb.LeafVersion
-		if last := e.v[len(e.v)-1]; last != byte(ver) {
-			ver = txscript.TapscriptLeafVersion(last) // a leaf whose version differs from its control block
-		}
+		v2must(err == nil && len(e.v) > 0, "tap leaf script")
+		ver := txscript.TapscriptLeafVersion(e.v[len(e.v)-1]) // may differ from the control block's
 		in.TapLeafScript = append(in.TapLeafScript, psetv2.TapLeafScript{
 			TapElementsLeaf: taproot.NewTapElementsLeaf(ver, v2cp(e.v[:len(e.v)-1])), ControlBlock: *cb})
 	}
 	for _, e := range s.lists[43] {
 		n, k, ok := v2rcs(e.v)
-		if !ok || n > uint64(len(e.v)-k)/32 {
-			panic("tap bip32 derivation")
-		}
-		d := psetv2.TapDerivationPathWithPubKey{}
-		for rest := e.v[k:]; ; rest = rest[32:] {
-			if n == 0 {
-				d.MasterKeyFingerprint, d.Bip32Path = v2rdDeriv(rest)
-				break
-			}
+		v2must(ok && n <= uint64(len(e.v)-k)/32, "tap bip32 derivation")
+		d, rest := psetv2.TapDerivationPathWithPubKey{}, e.v[k:]
+		for ; n > 0; n, rest = n-1, rest[32:] {
 			d.LeafHashes = append(d.LeafHashes, v2cp(rest[:32]))
-			n--
 		}
 		d.PubKey = e.k
+		d.MasterKeyFingerprint, d.Bip32Path = v2rdDeriv(rest)
 		in.TapBip32Derivation = append(in.TapBip32Derivation, d)
 	}
 	return in
@@ -496,9 +441,7 @@ func v2fromInput(in *psetv2.Input) *v2sec {
 	}
 	if in.NonWitnessUtxo != nil {
 		b, err := in.NonWitnessUtxo.Serialize()
-		if err != nil {
-			panic(err)
-		}
+		v2must(err == nil, "Serialize")
 		v[0] = b
 	}
 	if in.WitnessUtxo != nil {
@@ -528,9 +471,7 @@ func v2fromInput(in *psetv2.Input) *v2sec {
 	}
 	for _, x := range in.TapLeafScript {
 		cb, err := x.ControlBlock.ToBytes()
-		if err != nil {
-			panic(err)
-		}
+		v2must(err == nil, "ControlBlock.ToBytes")
 		s.lists[42] = append(s.lists[42], v2kv{cb, v2cat(x.Script, []byte{byte(x.LeafVersion)})})
 	}
 	for _, x := range in.TapBip32Derivation {
@@ -800,35 +741,26 @@ func v2ser(p *psetv2.Pset) (b64 string, st string) {
 	}
 	return s, "ok"
 }
-func v2parse(bs []byte) (p *psetv2.Pset, st string) {
+func v2try(f func() (*psetv2.Pset, error)) (p *psetv2.Pset, st string) {
 	defer func() {
 		if recover() != nil {
 			p, st = nil, "panic"
 		}
 	}()
-	q, err := psetv2.NewPsetFromBuffer(bytes.NewBuffer(v2cp(bs)))
-	if err != nil {
-		return nil, "err"
+	if q, err := f(); err == nil {
+		return q, "ok"
 	}
-	return q, "ok"
+	return nil, "err"
 }
-func v2parse64(s string) (p *psetv2.Pset, st string) {
-	defer func() {
-		if recover() != nil {
-			p, st = nil, "panic"
-		}
-	}()
-	q, err := psetv2.NewPsetFromBase64(s)
-	if err != nil {
-		return nil, "err"
-	}
-	return q, "ok"
+func v2parse(bs []byte) (*psetv2.Pset, string) {
+	return v2try(func() (*psetv2.Pset, error) { return psetv2.NewPsetFromBuffer(bytes.NewBuffer(v2cp(bs))) })
+}
+func v2parse64(s string) (*psetv2.Pset, string) {
+	return v2try(func() (*psetv2.Pset, error) { return psetv2.NewPsetFromBase64(s) })
 }
 func v2unb64(s string) []byte {
 	b, err := base64.StdEncoding.DecodeString(s)
-	if err != nil {
-		panic(err)
-	}
+	v2must(err == nil, "base64")
 	return b
 }
 
@@ -1588,7 +1520,7 @@ func v2mutate(r *Rng, ser []byte) []byte {
 		}
 	case 14: // one more field in an input section: height locktime, peg-in value, leaf script without value
 		ins := [][]byte{v2cat(v2vs([]byte{0x12}), v2vs(v2le(uint64(1+r.Intn(499999999)), 4))),
-			v2cat(v2vs(append([]byte{0xfc, 4, 'p', 's', 'e', 't', 8})), v2vs(v2le(1+r.U64()%1000000, 8))),
+			v2cat(v2vs([]byte{0xfc, 4, 'p', 's', 'e', 't', 8}), v2vs(v2le(1+r.U64()%1000000, 8))),
 			v2cat(v2vs(v2cat([]byte{0x15, 0xc4}, v2newKey(r).xonly())), v2vs(nil))}[r.Intn(3)]
 		for _, c := range ps {
 			if c.sec >= 1 && (c.sec > 1 || r.Bool()) {
